@@ -342,30 +342,31 @@ example : widthStats [0, 99, 100, 101, 600, 601] [100, 600]
 /-! ### regular stacks: n lines, leading Δ, common width w, text length m -/
 
 /-- A region holding `n ≥ 2` copies of one baseline shape (any polyline that is sampled at least
-    once at step 50), each `Δ ≥ 0` below the previous one: the average line distance is exactly
+    once at the step of the line-distance functions, `lineStep` — regenerated from the source, 50 at the time
+    of writing —), each `Δ ≥ 0` below the previous one: the average line distance is exactly
     `Δ`, macro and micro, whatever `mdt` computes and whatever the polygons are. -/
 theorem C19_avg_line_distance (mdt : MulDivTrunc) (rc : List Pt) (sid cid : Option Int) (shape : List Pt)
     (coordsOf : Nat → List Pt) (m sp : Nat) (Δ : Int) (hΔ : 0 ≤ Δ) (n : Nat) (hn : 2 ≤ n)
-    (hk : interpBaselinePure mdt shape 50 ≠ []) (t : AvgType) (ht : t = .macro ∨ t = .micro) :
+    (hk : interpBaselinePure mdt shape lineStep ≠ []) (t : AvgType) (ht : t = .macro ∨ t = .micro) :
     ∃ q, avgLineDistance mdt (stackRegion rc sid cid shape coordsOf m sp Δ n) t = .ok q ∧
       0 < q.2 ∧ q.1 = Δ * q.2 := by
   obtain ⟨n', rfl⟩ : ∃ n', n = n' + 1 + 1 := ⟨n - 2, by omega⟩
   have hd := lineDist_stack mdt shape coordsOf m sp Δ hΔ hk
   have h := regionLineDistances_stack mdt rc sid cid shape coordsOf m sp Δ _ hd (n' + 1)
-  have hk' : 0 < (interpBaselinePure mdt shape 50).length := by
-    cases hi : interpBaselinePure mdt shape 50 with
+  have hk' : 0 < (interpBaselinePure mdt shape lineStep).length := by
+    cases hi : interpBaselinePure mdt shape lineStep with
     | nil => exact absurd hi hk
     | cons a r => simp
   exact avg_of_constant mdt _ (n' + 1) _ (by omega) hk' Δ h t ht
 
-example : interpBaselinePure exactMdt [(10, 100), (510, 104)] 50 ≠ [] := by decide
+example : interpBaselinePure exactMdt [(10, 100), (510, 104)] lineStep ≠ [] := by decide
 
 /-- The same for a stack too narrow to be sampled (the fallback to average heights).  Remaining
     side conditions: some segment of the shape is not vertical, and the shape lies at
     non-negative y (see `C19_shift_fallback`).  Any polyline shape, doubling back or not. -/
 theorem C19_avg_line_distance_narrow (mdt : MulDivTrunc) (rc : List Pt) (sid cid : Option Int)
     (shape : List Pt) (coordsOf : Nat → List Pt) (m sp : Nat) (Δ : Int) (hΔ : 0 ≤ Δ) (n : Nat) (hn : 2 ≤ n)
-    (hk : interpBaselinePure mdt shape 50 = []) (hy : ∀ p ∈ shape, 0 ≤ p.2)
+    (hk : interpBaselinePure mdt shape lineStep = []) (hy : ∀ p ∈ shape, 0 ≤ p.2)
     (hnv : hasNonVertical shape = true) (t : AvgType) (ht : t = .macro ∨ t = .micro) :
     ∃ q, avgLineDistance mdt (stackRegion rc sid cid shape coordsOf m sp Δ n) t = .ok q ∧
       0 < q.2 ∧ q.1 = Δ * q.2 := by
@@ -374,9 +375,10 @@ theorem C19_avg_line_distance_narrow (mdt : MulDivTrunc) (rc : List Pt) (sid cid
   have h := regionLineDistances_stack mdt rc sid cid shape coordsOf m sp Δ _ hd (n' + 1)
   exact avg_of_constant mdt _ (n' + 1) 1 (by omega) (by omega) Δ h t ht
 
-example : interpBaselinePure exactMdt [(3, 100), (20, 104), (12, 99), (40, 101)] 50 = [] ∧
-    (∀ p ∈ [((3 : Int), (100 : Int)), (20, 104), (12, 99), (40, 101)], 0 ≤ p.2) ∧
-    hasNonVertical [(3, 100), (20, 104), (12, 99), (40, 101)] = true := by decide
+example : interpBaselinePure exactMdt [(1, 100), (3, 104), (2, 99), (4, 101)] lineStep = [] ∧
+    (∀ p ∈ [((1 : Int), (100 : Int)), (3, 104), (2, 99), (4, 101)], 0 ≤ p.2) ∧
+    hasNonVertical [(1, 100), (3, 104), (2, 99), (4, 101)] = true := by decide
+example : interpBaselinePure exactMdt [(3, 100), (20, 104), (12, 99), (40, 101)] 50 = [] := by decide
 
 /-- Average character width of a stack of `n` lines whose baselines have width `w` and whose texts
     have `m` characters: total baseline width over total characters, `n·w / (n·m)`. -/
@@ -427,18 +429,41 @@ example : mkCoords [(10, 100), (510, 104)] = .ok ⟨[(10, 100), (510, 104)], 10,
 example : avgCharWidth (stackRegion [(0, 0)] none none [(10, 100), (510, 104)] (fun _ => [(0, 0)]) 25 3 37 4)
     = .ok (2000, 100) := by decide
 
+/-! ### the regenerated literals
+
+The model reads the step of the line-distance functions (`lineStep`, `bboxStep`), the fall-back step
+of get_text_heights (`fallbackStep`), the thresholds of the is_*_overlapping calls and the divisor of
+in_same_column from `Generated/C19.lean`, rewritten from the source on every run.  The theorems on
+interpolation, distances and heights are stated for EVERY step; the region-level theorems use the
+regenerated step as an unknown number.  Only these two facts about the values are used. -/
+
+/-- the step of the line-distance functions is not 0 (used by `C19_avg_line_distance(_narrow)`) -/
+theorem C19_consts_line_step_nonzero : lineStep ≠ 0 := consts_line_step_nonzero
+
+/-- the narrow-line step of get_text_heights is positive: for every positive step passed, the step in effect
+    is positive, so `C19_text_height` applies to every call with a positive step -/
+theorem C19_consts_fallback_step_pos (w step : Int) (h : 0 < step) :
+    0 < fallbackStep ∧ 0 < (if w ≤ step then fallbackStep else step) := by
+  refine ⟨consts_fallback_step_pos, ?_⟩
+  split
+  · exact consts_fallback_step_pos
+  · exact h
+
+example : (0 : Int) < (if (30 : Int) ≤ 50 then fallbackStep else 50) := (C19_consts_fallback_step_pos 30 50 (by decide)).2
+
 /-! ### text height -/
 
 /-- Rectangle `x0..x1 × top..bottom` (points listed clockwise from the top-left corner) with the
     horizontal baseline `y = yb` from `x0` to `x1`, `top < yb ≤ bottom`.  `get_text_heights`
-    uses step 5 when the baseline is not wider than the step.  Exact preconditions found:
+    uses the fall-back step (`fallbackStep`, regenerated from the source; 5 at the time of writing) when the
+    baseline is not wider than the step.  Exact preconditions found:
     * at least one multiple of the effective step in `(x0, x1]`  ⇒  every returned height is
       `yb − top`, one per such multiple;
     * no such multiple  ⇒  `None` (all coordinate points are dropped by the split).
     Needs the law `mdt k 0 b = 0` (from `|mdt k a b| ≤ |a|`). -/
 theorem C19_text_height (mdt : MulDivTrunc) (laws : MulDivTruncLaws mdt) (x0 x1 top bottom yb step : Int)
     (hx : x0 < x1) (ht : top < yb) (hb : yb ≤ bottom) (s : Int)
-    (hs : s = if x1 - x0 ≤ step then 5 else step) (hpos : 0 < s) :
+    (hs : s = if x1 - x0 ≤ step then fallbackStep else step) (hpos : 0 < s) :
     ((∃ x, s ∣ x ∧ x0 < x ∧ x ≤ x1) →
       ∃ k, 0 < k ∧ textHeights mdt [(x0, top), (x1, top), (x1, bottom), (x0, bottom)] [(x0, yb), (x1, yb)] step
         = .ok (some (List.replicate k (yb - top)))) ∧
